@@ -197,3 +197,6 @@ func And(a, b bool) bool { return a && b }
 // SetStepBudget: under gosym, executing more than n further SSA instructions on a path is a violation with message msg
 // (bounded non-termination check); n == 0 clears the budget. Natively a no-op: the replay of such a violation is a hang.
 func SetStepBudget(n uint64, msg string) {}
+
+// Thorough reports whether the check runs in the thorough tier (larger bounds).
+func Thorough() bool { return os.Getenv("VERIF_TIER") == "thorough" }
